@@ -1129,6 +1129,23 @@ def oracle_c10(case, ir):
                 return {"what": f"after call {j}: proved={b}, but the assertion was "
                                 f"{'confirmed earlier' if seen else 'never confirmed'}"}
         return None
+    if k == "cs" and case.get("prev") is not None and ir.get("st") == "ok" and _valid_cards(case) and \
+            len(set(case["prev"])) == len(case["prev"]):
+        # a continued draw on records that do not carry the earlier round's `sampled` flags (a list re-created between
+        # sessions): the cards handed back stay in the sample, each card is listed once -- otherwise every assertion's
+        # data repeat observations and are no longer the earlier data with new observations appended
+        sel = ir["sel"]
+        if len(set(sel)) != len(sel):
+            dup = sorted({i for i in sel if sel.count(i) > 1})
+            return {"what": f"continued draw (cards {case['prev']} handed back): the returned sample {sel} lists cards {dup} "
+                            f"more than once", "flags_on_entry": "unset (records re-created between rounds)"}
+        if not set(case["prev"]) <= set(sel):
+            return {"what": f"continued draw: the returned sample {sel} does not contain the cards handed back {case['prev']}"}
+        flagged = [i for i, f in enumerate(ir.get("flags", [])) if f]
+        if "flags" in ir and flagged != sorted(set(sel)):
+            return {"what": f"continued draw: the cards recorded as sampled afterwards are {flagged}, the sample is {sorted(set(sel))} "
+                            f"(the next round's sample sizes are computed from these flags)"}
+        return None
     if k != "rounds" or not case["use_style"] or not _valid_cards(case):
         return None
     if ir.get("st") != "ok":
